@@ -68,6 +68,7 @@ pub fn queries(tier: Tier) -> Vec<GenQuery> {
         "city || 'x' AS cx",
         "coalesce(age, 0) AS ca",
         // several WHEN branches whose conditions overlap; an earlier branch gives the same result as ELSE
+        "age <= 18 AS le, age >= 20 AS ge, 20 <= age AS ge2, id",
         "CASE WHEN age > 19 THEN 0 WHEN age > 17 THEN 1 ELSE 0 END AS c3, id",
         "CASE WHEN id = 1 THEN 'x' WHEN age > 19 THEN 'y' WHEN id < 3 THEN 'x' ELSE 'y' END AS c4",
     ];
@@ -109,6 +110,11 @@ pub fn queries(tier: Tier) -> Vec<GenQuery> {
         "id, user_id AS u",
         "amount / 2 AS h",
         "CAST(amount AS INTEGER) AS ai",
+        // comparisons against the declared bounds of the column, used as values (the only rows that make them true
+        // sit exactly on the bound)
+        "amount <= 0 AS le, amount >= 10 AS ge, id",
+        "10 <= amount AS a, 0 >= amount AS b, amount < 0 AS c, amount > 10 AS d",
+        "CASE WHEN amount <= 0 THEN 'lo' ELSE 'hi' END AS lvl0, id",
     ];
     let order_preds: Vec<&str> = vec!["", "amount > 5", "amount IS NULL", "amount IS NOT NULL AND user_id = 1", "amount >= 0 OR user_id = 2", "user_id IN (1)", "NOT (amount > 5)", "amount = 10"];
     for (i, items) in order_items.iter().enumerate() {
@@ -356,6 +362,13 @@ pub fn queries(tier: Tier) -> Vec<GenQuery> {
         "exp(v) AS x", "log(k) AS x",
     ] {
         out.push(q(format!("SELECT {f} FROM m"), &["m"], &["unique-propagation"]));
+    }
+    // a nullable unique column: functions that map NULL to a value (COALESCE, CASE .. IS NULL) are not injective on it
+    for f in [
+        "u AS x", "-u AS x", "coalesce(u, 1) AS x", "coalesce(u, w) AS x", "-coalesce(u, 2) AS x", "coalesce(u, 0) AS x, w", "coalesce(-u, -1) AS x",
+        "CASE WHEN u IS NULL THEN 1 ELSE u END AS x", "u + 1 AS x", "coalesce(u + 1, 2) AS x", "u, w",
+    ] {
+        out.push(q(format!("SELECT {f} FROM nu"), &["nu"], &["unique-propagation", "nullable-unique"]));
     }
     out.push(q("SELECT v, count(*) AS c FROM m GROUP BY v".into(), &["m"], &["unique-propagation", "grouped"]));
     out.push(q("SELECT CAST(k AS INTEGER) AS ki, count(*) AS c FROM m GROUP BY CAST(k AS INTEGER)".into(), &["m"], &["unique-propagation", "grouped"]));
